@@ -74,16 +74,43 @@ fn classify(gt: &str) -> Expect {
     Expect::Count(a.iter().map(|(x, _)| x.unwrap() as usize).sum())
 }
 
-fn call_set(gt: &str) -> CallSet {
+/// The partner sample's genotype at the probe record and the column order (probe = sample `s0`).
+#[derive(Clone, Copy, Debug, PartialEq)]
+pub struct Ctx {
+    partner: &'static str,
+    probe_first: bool,
+}
+
+const CTXS: [Ctx; 6] = [
+    Ctx { partner: "0/0", probe_first: true },
+    Ctx { partner: "0/0", probe_first: false },
+    Ctx { partner: "./.", probe_first: true },
+    Ctx { partner: "./.", probe_first: false },
+    Ctx { partner: "1/2", probe_first: true },
+    Ctx { partner: "1/2", probe_first: false },
+];
+
+fn call_set(gt: &str, ctx: Ctx) -> CallSet {
     let mut cs = CallSet::new(2);
+    if !ctx.probe_first {
+        cs.samples = vec!["s1".into(), "s0".into()];
+    }
     let alts = ALTS.to_vec();
-    cs.records.push(Record { chrom: 0, pos: 3, alts: alts.clone(), gts: vec!["0/0".into(), "0|0".into()], decorated: false });
-    cs.records.push(Record { chrom: 1, pos: 7, alts: alts.clone(), gts: vec![gt.to_string(), "0/0".into()], decorated: false });
-    cs.records.push(Record { chrom: 1, pos: 9, alts, gts: vec!["0|0".into(), "0/0".into()], decorated: false });
+    let pair = |a: &str, b: &str| -> Vec<String> {
+        if ctx.probe_first {
+            vec![a.to_string(), b.to_string()]
+        } else {
+            vec![b.to_string(), a.to_string()]
+        }
+    };
+    cs.records.push(Record { chrom: 0, pos: 3, alts: alts.clone(), gts: pair("0/0", "0|0"), decorated: false });
+    cs.records.push(Record { chrom: 1, pos: 7, alts: alts.clone(), gts: pair(gt, ctx.partner), decorated: false });
+    cs.records.push(Record { chrom: 1, pos: 9, alts, gts: pair("0|0", "0/0"), decorated: false });
     cs
 }
 
-fn expected_result(e: Expect, selected: bool) -> Vec<Result<CreateResult, ()>> {
+fn expected_result(e: Expect, selected: bool, ctx: Ctx) -> Vec<Result<CreateResult, ()>> {
+    let partner_called = ctx.partner == "0/0";
     let ok = |shape: usize, idx: Option<usize>, skipped: usize| {
         let mut s = RefArray::zeros(&[shape]);
         s.data[0] = 2.0;
@@ -93,7 +120,15 @@ fn expected_result(e: Expect, selected: bool) -> Vec<Result<CreateResult, ()>> {
         Ok(CreateResult { spectrum: s, skipped, sites: 3 })
     };
     if !selected {
-        return vec![ok(3, Some(0), 0)];
+        return if partner_called { vec![ok(3, Some(0), 0)] } else { vec![ok(3, None, 1)] };
+    }
+    if !partner_called {
+        // the partner is missing / multiallelic: the site is skipped unless the probe is non-diploid
+        return match e {
+            Expect::PloidyError => vec![Err(())],
+            Expect::BareDot => vec![ok(5, None, 1), Err(())],
+            _ => vec![ok(5, None, 1)],
+        };
     }
     match e {
         Expect::Count(c) => vec![ok(5, Some(c), 0)],
@@ -103,10 +138,12 @@ fn expected_result(e: Expect, selected: bool) -> Vec<Result<CreateResult, ()>> {
     }
 }
 
-fn case_j(gt: &str, container: Container, selected: bool, bytes: &[u8]) -> J {
+fn case_j(gt: &str, container: Container, selected: bool, ctx: Ctx, bytes: &[u8]) -> J {
     J::obj([
         ("kind", J::s("c08")),
         ("gt", J::s(gt)),
+        ("partner", J::s(ctx.partner)),
+        ("probe_first", J::Bool(ctx.probe_first)),
         ("container", J::s(container.name())),
         ("probe_selected", J::Bool(selected)),
         ("bytes_hex", J::s(hex(bytes))),
@@ -127,8 +164,8 @@ fn gt_class(gt: &str) -> String {
     )
 }
 
-fn eval_lib(gt: &str, container: Container, selected: bool) -> Option<Viol> {
-    let cs = call_set(gt);
+fn eval_lib(gt: &str, container: Container, selected: bool, ctx: Ctx) -> Option<Viol> {
+    let cs = call_set(gt, ctx);
     let bytes = render(&cs, container, &Layout::Single);
     let b2 = bytes.clone();
     let r = catch(move || {
@@ -136,6 +173,7 @@ fn eval_lib(gt: &str, container: Container, selected: bool) -> Option<Viol> {
             .set_threads(NonZeroUsize::new(1).unwrap())
             .verif_build_from_reader(Cursor::new(b2))
             .map_err(|e| format!("build: {e}"))?;
+        // the map is by sample *name* (entry i = sample `s<i>`); the probe is always named `s0`
         let map: Vec<Option<usize>> = if selected { vec![Some(0), Some(0)] } else { vec![None, Some(0)] };
         let mut site = build_site_reader(g, &map, None)?;
         run_reader(&mut site)
@@ -145,7 +183,7 @@ fn eval_lib(gt: &str, container: Container, selected: bool) -> Option<Viol> {
         Err(p) => Err(format!("panic: {p}")),
     };
     let e = classify(gt);
-    let allowed = expected_result(e, selected);
+    let allowed = expected_result(e, selected, ctx);
     let matches = allowed.iter().any(|a| match (a, &r) {
         (Ok(x), Ok(y)) => x == y,
         (Err(()), Err(msg)) => msg.contains("not diploid"),
@@ -161,21 +199,23 @@ fn eval_lib(gt: &str, container: Container, selected: bool) -> Option<Viol> {
     let key = match &r {
         Err(m) if m.starts_with("panic:") => format!("C08|lib|panic|{}", norm_msg(m)),
         _ => format!(
-            "C08|lib|misclassified|{}|expect={:?}|{}",
+            "C08|lib|misclassified|{}|expect={:?}|{}|partner={}",
             gt_class(gt),
             e,
-            if selected { "selected" } else { "unselected" }
+            if selected { "selected" } else { "unselected" },
+            if ctx.partner == "0/0" { "called".to_string() } else { format!("{}{}", ctx.partner, if ctx.probe_first { ",after-probe" } else { ",before-probe" }) }
         ),
     };
     Some((
         key,
-        format!("GT '{gt}' in the {} path (probe {}): {what}; the statement requires {e:?}", container.name(), if selected { "selected" } else { "unselected" }),
-        case_j(gt, container, selected, &bytes),
+        format!("GT '{gt}' in the {} path (probe {}, partner {} in the {} column): {what}; the statement requires {e:?}", container.name(), if selected { "selected" } else { "unselected" }, ctx.partner, if ctx.probe_first { "later" } else { "earlier" }),
+        case_j(gt, container, selected, ctx, &bytes),
     ))
 }
 
 fn eval_cli(gt: &str, container: Container, selected: bool, scratch: &Scratch) -> Option<Viol> {
-    let cs = call_set(gt);
+    let ctx = CTXS[0];
+    let cs = call_set(gt, ctx);
     let bytes = render(&cs, container, &Layout::Single);
     let sarg = if selected { "s0,s1" } else { "s1" };
     let o = run_sfs(&["create", "-vv", "-s", sarg], Stdin::Bytes(&bytes), scratch);
@@ -255,7 +295,7 @@ fn eval_cli(gt: &str, container: Container, selected: bool, scratch: &Scratch) -
     Some((
         key,
         format!("GT '{gt}' in the {} path (-s {sarg}): {}", container.name(), problems.join("; ")),
-        case_j(gt, container, selected, &bytes),
+        case_j(gt, container, selected, ctx, &bytes),
     ))
 }
 
@@ -263,21 +303,27 @@ pub fn run(tier: Tier) -> i32 {
     let mut rep = Report::new("C08", tier, "exploration");
     let gts = all_gt_strings();
     rep.rule = format!(
-        "all {} GT strings over alleles {{., 0, 1, 2, 3, 10}} x separators {{/,|}} x ploidy 1..3, x path {{VCF text, BCF binary, and their BGZF forms}} x role {{probe sample selected, unselected}}; the probe record sits between two ordinary records on another contig/position. L1 through the real format detection + noodles decoding + classification + site reader; L2 through `sfs create -vv` with the per-sample trace lines and the error message as part of the observation. Oracle: transcription of the statement. Non-trivial = a string with a '.', an allele >= 2, or ploidy != 2.",
+        "all {} GT strings over alleles {{., 0, 1, 2, 3, 10}} x separators {{/,|}} x ploidy 1..3, x path {{VCF text, BCF binary, and their BGZF forms}} x role {{probe sample selected, unselected}} x partner sample genotype {{0/0, ./., 1/2}} x column order {{probe first, partner first}}; the probe record sits between two ordinary records on another contig/position. L1 through the real format detection + noodles decoding + classification + site reader; L2 through `sfs create -vv` with the per-sample trace lines and the error message as part of the observation. Oracle: transcription of the statement. Non-trivial = a string with a '.', an allele >= 2, or ploidy != 2.",
         gts.len()
     );
     let containers = [Container::Vcf, Container::RawBcf, Container::VcfGz, Container::Bcf];
-    let mut jobs: Vec<(usize, Container, bool)> = Vec::new();
+    let mut jobs: Vec<(usize, Container, bool, Ctx)> = Vec::new();
     for (i, _) in gts.iter().enumerate() {
         for c in containers {
             for sel in [true, false] {
-                jobs.push((i, c, sel));
+                for ctx in CTXS {
+                    // partner contexts other than the default only in the uncompressed containers
+                    if ctx != CTXS[0] && c.compressed() {
+                        continue;
+                    }
+                    jobs.push((i, c, sel, ctx));
+                }
             }
         }
     }
-    let res = par_map(jobs.len(), |j| eval_lib(&gts[jobs[j].0], jobs[j].1, jobs[j].2));
+    let res = par_map(jobs.len(), |j| eval_lib(&gts[jobs[j].0], jobs[j].1, jobs[j].2, jobs[j].3));
     let mut nt = 0u64;
-    for ((i, _, sel), v) in jobs.iter().zip(res) {
+    for ((i, _, sel, _), v) in jobs.iter().zip(res) {
         let e = classify(&gts[*i]);
         if !matches!(e, Expect::Count(_)) {
             nt += 1;
@@ -293,7 +339,7 @@ pub fn run(tier: Tier) -> i32 {
         name: "lib: every GT string x path x role".into(),
         evaluations: jobs.len() as u64,
         nontrivial: nt,
-        note: format!("{} strings x 4 containers x 2 roles", gts.len()),
+        note: format!("{} strings x 4 containers x 2 roles; in vcf and raw bcf additionally x partner genotype {{0/0, ./., 1/2}} x column order", gts.len()),
         exhaustive: true,
         extra: vec![],
     });
@@ -351,7 +397,10 @@ pub fn replay(case: &J) -> Option<Vec<String>> {
     let c = Container::all().into_iter().find(|c| c.name() == cname)?;
     let sel = matches!(case.get("probe_selected"), Some(J::Bool(true)));
     let scratch = Scratch::new("c08r");
-    let mut v: Vec<Viol> = eval_lib(&gt, c, sel).into_iter().collect();
+    let partner = case.get("partner").and_then(|p| p.as_str()).unwrap_or("0/0");
+    let probe_first = !matches!(case.get("probe_first"), Some(J::Bool(false)));
+    let ctx = CTXS.iter().copied().find(|x| x.partner == partner && x.probe_first == probe_first)?;
+    let mut v: Vec<Viol> = eval_lib(&gt, c, sel, ctx).into_iter().collect();
     v.extend(eval_cli(&gt, c, sel, &scratch));
     Some(v.into_iter().map(|(k, w, _)| format!("{k} :: {w}")).collect())
 }
